@@ -33,7 +33,7 @@ func (o goSliceObject) getValue(index int64) (reflect.Value, bool) {
 func (o *goSliceObject) setLength(value Value) {
 	want, err := value.ToInteger()
 	if err != nil {
-		panic(err)
+		panic(conversionException(err))
 	}
 
 	wantInt := int(want)
@@ -54,7 +54,7 @@ func (o *goSliceObject) setLength(value Value) {
 func (o *goSliceObject) setValue(index int64, value Value) bool {
 	reflectValue, err := value.toReflectValue(o.value.Type().Elem())
 	if err != nil {
-		panic(err)
+		panic(conversionException(err))
 	}
 
 	indexValue, exists := o.getValue(index)
